@@ -16,7 +16,42 @@ for m in _UNIT_MODULES:
 NUMBIGINT_TB = ["ASSUMED contracts of the external crate num-bigint 0.4 (units/_shared/num_bigint.rs): sign, bits (< 2^63), bit, set_bit, checked_add/sub/mul/div, %, <<, >>, unary -, & | ^ (bitwise axioms), From<i32/usize/u8>, TryFrom<&BigInt> for usize/u32, comparisons"]
 REPORT_TB = ["ASSUMED contracts of diagn::Report methods (units/contracts_report.py): error*/warning*/note*/message add one top-level message; push_parent*/pop_parent change only the parent stack"]
 
+RESOLVER_TB = ["ASSUMED contracts of unverified customasm code used by U-resolver/U-iterate: asm::resolver::eval / eval_certain ('Err is loud, Ok is clean'), resolve_constant / resolve_instruction / resolve_data_element (the per-item pass contract), ResolveIterator::new/next (flags copied; the yielded node refers to defined items), Value::expect_error_or_bigint / expect_bool, DefList::get_mut (frame), derived PartialEq of expr::Value",
+               "ghost event `ItemDefs::confirmed()` is produced only by resolve_once's stub clause [confirms] (a name for 'a no-guess pass answered Resolved'); termination of resolve_once's loop is not proved"]
+
+ALL_UNITS = ["U-overlap", "U-bigint", "U-constrain", "U-resolver", "U-iterate"]
+
 PROPERTIES = {
+    "C01": {
+        "units": ["U-resolver"],
+        "claim": "Address bookkeeping, for all inputs: eval_address/get_address return addr_start + position / addr_unit, and a position that is not a whole number of addresses is rejected when guessing is forbidden; advance_address moves only the current bank, by exactly the size of the item before (instruction / data element / #res), to the next multiple for #align, and to (address - addr_start) * addr_unit for #addr; bits_until_alignment returns the least non-negative distance; resolve_label stores exactly the address of what follows; every defined bank has a positive address unit (proved at bankdef::define).",
+        "not_reached": "rule matching, argument evaluation, choice of the smallest encoding (resolve_encoding), parsing, data-directive evaluation, build_output (units pending: U-bitvec/U-output)",
+        "trusted_base": NUMBIGINT_TB + REPORT_TB + RESOLVER_TB,
+    },
+    "C02": {
+        "units": ["U-iterate", "U-resolver"],
+        "claim": "resolve_iteratively returns Ok(n) only after a pass in which guessing was forbidden answered Resolved (the confirming pass), with no later change to the definitions, for every budget; resolve_once answers Resolved only if every per-item resolver did (merge is conjunction) and an unstable item in a last pass is an error; resolve_label / resolve_res / resolve_align / resolve_addr answer Resolved only when the freshly computed value equals the previous one, and report 'did not converge' otherwise in the last pass.",
+        "not_reached": "that recomputing every instruction selects one unique smallest encoding (resolve_encoding/matcher); resolve_constant, resolve_instruction, resolve_data_element obey the pass contract by assumption; the nested loop in eval_asm",
+        "trusted_base": NUMBIGINT_TB + REPORT_TB + RESOLVER_TB,
+    },
+    "C03": {
+        "units": ALL_UNITS,
+        "claim": "Inside the verified set (listed under functions_under_contract): no arithmetic overflow, out-of-range index, unwrap of None, reachable panic!/unreachable!/assert! for any input satisfying the stated preconditions; and every function with a report parameter is loud on Err (a message was pushed) and clean on Ok (no message, no error), with the parent stack balanced. resolve_iteratively: success is clean, failure is loud; a failed #assert fails the assembly.",
+        "not_reached": "totality over all input texts (tokenizer, parser, matcher, evaluator are outside the verified set), process exit status, files written, I/O faults, assemble()'s closure and the driver",
+        "trusted_base": NUMBIGINT_TB + REPORT_TB + RESOLVER_TB,
+    },
+    "C09": {
+        "units": ["U-iterate", "U-resolver"],
+        "claim": "For every budget >= 1: the number of passes resolve_iteratively reports lies in [1, budget]; a Resolved pass on the last allowed iteration is itself the confirming pass; assertions are evaluated only in a last pass.",
+        "not_reached": "monotonicity in the budget (a relation between two runs, not a contract on one call); --iters 0 rejection (driver string code); eval_asm's nested loop",
+        "trusted_base": REPORT_TB + RESOLVER_TB,
+    },
+    "C19": {
+        "units": ALL_UNITS,
+        "claim": "Machine-word arithmetic is not treated as mathematical: every usize/u64 operation in the verified set carries an overflow obligation, all discharged except the listed known findings D9a-D9d (unchecked position arithmetic). Proved limits: checked_add/sub/mul/shl never yield more than BIGINT_MAX_BITS bits and fail loudly beyond the cap; checked_into/expect_usize/expect_nonzero_usize are exact and total on their range.",
+        "not_reached": "stack depth and recursion limits of the parser/evaluator (check_recursion_limit lives in string/closure code), time and memory bounds",
+        "trusted_base": NUMBIGINT_TB + REPORT_TB + RESOLVER_TB,
+    },
     "C04": {
         "units": ["U-bigint", "U-constrain"],
         "claim": "For every integer v and every width N >= 1: check_and_constrain_argument returns Integer(v) with size Some(N) exactly when v is in the range the property states for uN/sN/iN, and FailedConstraint otherwise; the value is never changed. BigInt::min_size equals the minimal two's-complement width (proved against a recursive bit-length spec, with the lemma min_size(v) <= N <=> -2^(N-1) <= v < 2^N); BigInt::slice keeps exactly the named bits (low N bits for slice(N,0)).",
